@@ -332,7 +332,13 @@ func (e *Engine) onNack(name enc.Name, reason uint64) {
 			e.log.Fatalf("PIT has empty entry. This should not happen. Please check the implementation.")
 		}
 	}
-	n.Delete()
+	// All entries of this node are resolved: clear them (a timeout callback that could no longer
+	// be cancelled must not see them again), then prune the node only if nothing is below it and
+	// stop at the first ancestor that still holds pending Interests.
+	n.SetValue(nil)
+	n.DeleteIf(func(lst []*pendInt) bool {
+		return len(lst) == 0
+	})
 }
 
 func (e *Engine) onError(err error) error {
